@@ -11,10 +11,86 @@ SchemaObjectsT == [
   ExtensionInformation |-> <<
       Req("extension_name", "EXTENSION_NAME", "text"),
       Opt("extension_tag", "EXTENSION_TAG", "int"),
-      Opt("extension_type", "EXTENSION_TYPE", "int") >>
+      Opt("extension_type", "EXTENSION_TYPE", "int") >>,
+  RNGParameters |-> <<
+      ReqE("rng_algorithm", "RNG_ALGORITHM", "RNGAlgorithm"),
+      OptE("cryptographic_algorithm", "CRYPTOGRAPHIC_ALGORITHM", "CryptographicAlgorithm"),
+      Opt("cryptographic_length", "CRYPTOGRAPHIC_LENGTH", "int"),
+      OptE("hashing_algorithm", "HASHING_ALGORITHM", "HashingAlgorithm"),
+      OptE("drbg_algorithm", "DRBG_ALGORITHM", "DRBGAlgorithm"),
+      OptE("recommended_curve", "RECOMMENDED_CURVE", "RecommendedCurve"),
+      OptE("fips186_variation", "FIPS186_VARIATION", "FIPS186Variation"),
+      Opt("prediction_resistance", "PREDICTION_RESISTANCE", "bool") >>,
+  \* KMIP 2.0 adds Profile Version (structure, optional) after Profile Name; no constructor argument: left out.
+  ProfileInformation |-> <<
+      ReqE("profile_name", "PROFILE_NAME", "ProfileName"),
+      Opt("server_uri", "SERVER_URI", "text"),
+      Opt("server_port", "SERVER_PORT", "int") >>,
+  ValidationInformation |-> <<
+      ReqE("validation_authority_type", "VALIDATION_AUTHORITY_TYPE", "ValidationAuthorityType"),
+      Opt("validation_authority_country", "VALIDATION_AUTHORITY_COUNTRY", "text"),
+      Opt("validation_authority_uri", "VALIDATION_AUTHORITY_URI", "text"),
+      Req("validation_version_major", "VALIDATION_VERSION_MAJOR", "int"),
+      Opt("validation_version_minor", "VALIDATION_VERSION_MINOR", "int"),
+      ReqE("validation_type", "VALIDATION_TYPE", "ValidationType"),
+      Req("validation_level", "VALIDATION_LEVEL", "int"),
+      Opt("validation_certificate_identifier", "VALIDATION_CERTIFICATE_IDENTIFIER", "text"),
+      Opt("validation_certificate_uri", "VALIDATION_CERTIFICATE_URI", "text"),
+      Opt("validation_vendor_uri", "VALIDATION_VENDOR_URI", "text"),
+      Many("validation_profiles", "VALIDATION_PROFILE", "text") >>,
+  \* KMIP 2.0 adds Quantum Safe Capability (boolean, optional) at the end; no constructor argument: left out.
+  CapabilityInformation |-> <<
+      Opt("streaming_capability", "STREAMING_CAPABILITY", "bool"),
+      Opt("asynchronous_capability", "ASYNCHRONOUS_CAPABILITY", "bool"),
+      Opt("attestation_capability", "ATTESTATION_CAPABILITY", "bool"),
+      Since(Opt("batch_undo_capability", "BATCH_UNDO_CAPABILITY", "bool"), 14),
+      Since(Opt("batch_continue_capability", "BATCH_CONTINUE_CAPABILITY", "bool"), 14),
+      OptE("unwrap_mode", "UNWRAP_MODE", "UnwrapMode"),
+      OptE("destroy_action", "DESTROY_ACTION", "DestroyAction"),
+      OptE("shredding_algorithm", "SHREDDING_ALGORITHM", "ShreddingAlgorithm"),
+      OptE("rng_mode", "RNG_MODE", "RNGMode") >>,
+  ObjectDefaults |-> <<
+      ReqE("object_type", "OBJECT_TYPE", "ObjectType"),
+      ReqS("attributes", "ATTRIBUTES", "Attributes") >>,
+  DefaultsInformation |-> << SomeS("object_defaults", "OBJECT_DEFAULTS", "ObjectDefaults") >>,
+  \* --- Query, Discover Versions ----------------------------------------------
+  QueryRequestPayload |-> << F("query_functions", "QUERY_FUNCTION", "enum", "QueryFunction", "+", 10, 20) >>,
+  \* Server Information: vendor specific contents under 1.x; KMIP 2.0 defines Server Name, Server Serial Number,
+  \* Server Version, Server Load, Product Name, Build Level, Build Date, Cluster Info, Alternative Failover Endpoints.
+  \* The implementation keeps undecoded bytes and has no constructor argument: only the empty structure is stated.
+  ServerInformation |-> <<>>,
+  QueryResponsePayload |-> <<
+      ManyE("operations", "OPERATION", "Operation"),
+      ManyE("object_types", "OBJECT_TYPE", "ObjectType"),
+      Opt("vendor_identification", "VENDOR_IDENTIFICATION", "text"),
+      OptS("server_information", "SERVER_INFORMATION", "ServerInformation"),
+      Many("application_namespaces", "APPLICATION_NAMESPACE", "text"),
+      Since(ManyS("extension_information", "EXTENSION_INFORMATION", "ExtensionInformation"), 11),
+      Since(ManyE("attestation_types", "ATTESTATION_TYPE", "AttestationType"), 12),
+      Since(ManyS("rng_parameters", "RNG_PARAMETERS", "RNGParameters"), 13),
+      Since(ManyS("profile_information", "PROFILE_INFORMATION", "ProfileInformation"), 13),
+      Since(ManyS("validation_information", "VALIDATION_INFORMATION", "ValidationInformation"), 13),
+      Since(ManyS("capability_information", "CAPABILITY_INFORMATION", "CapabilityInformation"), 13),
+      Since(ManyE("client_registration_methods", "CLIENT_REGISTRATION_METHOD", "ClientRegistrationMethod"), 13),
+      Since(OptS("defaults_information", "DEFAULTS_INFORMATION", "DefaultsInformation"), 20),
+      \* KMIP 2.0 prescribes a Protection Storage Masks STRUCTURE here; the library's field is a list of mask integers
+      \* written bare (tag Protection Storage Mask).  The value shape follows the library's API, so this known wire
+      \* deviation is stated here instead of being reported as drift on every run (DESIGN 0.6).
+      Since(Many("protection_storage_masks", "PROTECTION_STORAGE_MASK", "mask"), 20) >>,
+  DiscoverVersionsRequestPayload |-> << ManyS("protocol_versions", "PROTOCOL_VERSION", "ProtocolVersion") >>,
+  DiscoverVersionsResponsePayload |-> << ManyS("protocol_versions", "PROTOCOL_VERSION", "ProtocolVersion") >>
 ]
 ClassTagObjects == [
-  ExtensionInformation |-> "EXTENSION_INFORMATION" ]
+  ExtensionInformation |-> "EXTENSION_INFORMATION", RNGParameters |-> "RNG_PARAMETERS",
+  ProfileInformation |-> "PROFILE_INFORMATION", ValidationInformation |-> "VALIDATION_INFORMATION",
+  CapabilityInformation |-> "CAPABILITY_INFORMATION", ObjectDefaults |-> "OBJECT_DEFAULTS",
+  DefaultsInformation |-> "DEFAULTS_INFORMATION",
+  QueryRequestPayload |-> "REQUEST_PAYLOAD", QueryResponsePayload |-> "RESPONSE_PAYLOAD",
+  ServerInformation |-> "SERVER_INFORMATION",
+  DiscoverVersionsRequestPayload |-> "REQUEST_PAYLOAD", DiscoverVersionsResponsePayload |-> "RESPONSE_PAYLOAD" ]
 ClassSinceObjects == [
-  ExtensionInformation |-> <<11, 20>> ]
+  ExtensionInformation |-> <<11, 20>>, RNGParameters |-> <<13, 20>>,
+  ProfileInformation |-> <<13, 20>>, ValidationInformation |-> <<13, 20>>,
+  CapabilityInformation |-> <<13, 20>>, ObjectDefaults |-> <<20, 20>>, DefaultsInformation |-> <<20, 20>>,
+  DiscoverVersionsRequestPayload |-> <<11, 20>>, DiscoverVersionsResponsePayload |-> <<11, 20>> ]
 =============================================================================
